@@ -65,6 +65,12 @@
 #include "str/ares_strsplit.h"
 #include "util/ares_uri.h"
 
+#ifdef CARES_VERIF_HOOKS
+#  include "ares_verif_hooks.h"
+#else
+#  define ARES_VERIF_RAND_PURPOSE(x) ((void)0)
+#endif
+
 #ifndef HAVE_GETENV
 #  include "ares_getenv.h"
 #  define getenv(ptr) ares_getenv(ptr)
